@@ -1,6 +1,7 @@
 package internal
 
 import (
+	"bytes"
 	"encoding/xml"
 	"errors"
 	"fmt"
@@ -44,8 +45,20 @@ func DecodeXMLRequest(r *http.Request, v interface{}) error {
 	return nil
 }
 
+// IsRequestBodyEmpty checks whether the request has an empty body. It reads
+// one byte: a zero-length read doesn't report the end of the body with every
+// reader (http.MaxBytesReader returns 0, nil). A byte which has been read is
+// put back in front of the body.
 func IsRequestBodyEmpty(r *http.Request) bool {
-	_, err := r.Body.Read(nil)
+	var b [1]byte
+	n, err := r.Body.Read(b[:])
+	if n > 0 {
+		r.Body = struct {
+			io.Reader
+			io.Closer
+		}{io.MultiReader(bytes.NewReader(b[:n]), r.Body), r.Body}
+		return false
+	}
 	return err == io.EOF
 }
 
@@ -131,16 +144,12 @@ func (h *Handler) handleOptions(w http.ResponseWriter, r *http.Request) error {
 
 func (h *Handler) handlePropfind(w http.ResponseWriter, r *http.Request) error {
 	var propfind PropFind
-	if isContentXML(r.Header) {
-		if err := DecodeXMLRequest(r, &propfind); err != nil {
-			return err
-		}
-	} else {
-		var b [1]byte
-		if _, err := r.Body.Read(b[:]); err != io.EOF {
-			return HTTPErrorf(http.StatusBadRequest, "webdav: unsupported request body")
-		}
+	if IsRequestBodyEmpty(r) {
+		// An empty body is an allprop request (RFC 4918 section 9.1),
+		// whatever its Content-Type says
 		propfind.AllProp = &struct{}{}
+	} else if err := DecodeXMLRequest(r, &propfind); err != nil {
+		return err
 	}
 
 	depth := DepthInfinity
